@@ -47,7 +47,7 @@ ASSUMPTIONS = [
 ]
 PROBES = ["site:encoding-name", "site:cmapname-stream", "site:usecmap", "site:registry-ordering", "site:image-name", "name:dotdot", "name:absolute", "name:nul", "name:long", "name:existing-file", "name:separator", "state:outdir-absent", "state:outdir-nested", "state:preexisting-image-name", "image exported", "bait file present at traversal target"]
 TIERS = {
-    "quick": {"batches": 16, "runs": 60, "budget_s": 45},
+    "quick": {"batches": 16, "runs": 500, "budget_s": 45},
     "thorough": {"batches": 128, "runs": 500, "budget_s": 900},
 }
 DETERMINISM_SLICE = 4
@@ -169,15 +169,15 @@ def build_document(t, ctx, fsroot):
             w, h = t.rint(1, 5, "img.w"), t.rint(1, 4, "img.h")
             common = {b"Type": Name(b"XObject"), b"Subtype": Name(b"Image"), b"Width": w, b"Height": h}
             if kind == "gray":
-                img = docs.content_stream(bytes(range(w * h)), flate=True, extra=dict(common, **{b"BitsPerComponent": 8, b"ColorSpace": Name(b"DeviceGray")}))
+                img = docs.content_stream(bytes(range(w * h)), flate=True, extra={**common, **{b"BitsPerComponent": 8, b"ColorSpace": Name(b"DeviceGray")}})
             elif kind == "rgb":
-                img = docs.content_stream(bytes(range(w * h * 3)), flate=True, extra=dict(common, **{b"BitsPerComponent": 8, b"ColorSpace": Name(b"DeviceRGB")}))
+                img = docs.content_stream(bytes(range(w * h * 3)), flate=True, extra={**common, **{b"BitsPerComponent": 8, b"ColorSpace": Name(b"DeviceRGB")}})
             elif kind == "jpeg":
-                img = docs.content_stream(b"\xff\xd8\xff\xe0fakejpeg\xff\xd9", extra=dict(common, **{b"BitsPerComponent": 8, b"ColorSpace": Name(b"DeviceRGB"), b"Filter": Name(b"DCTDecode")}))
+                img = docs.content_stream(b"\xff\xd8\xff\xe0fakejpeg\xff\xd9", extra={**common, **{b"BitsPerComponent": 8, b"ColorSpace": Name(b"DeviceRGB"), b"Filter": Name(b"DCTDecode")}})
             elif kind == "1bit":
-                img = docs.content_stream(bytes(((w + 7) // 8) * h), flate=True, extra=dict(common, **{b"BitsPerComponent": 1, b"ColorSpace": Name(b"DeviceGray")}))
+                img = docs.content_stream(bytes(((w + 7) // 8) * h), flate=True, extra={**common, **{b"BitsPerComponent": 1, b"ColorSpace": Name(b"DeviceGray")}})
             else:
-                img = docs.content_stream(bytes(range(w * h * 2)).hex().encode() + b">", extra=dict(common, **{b"BitsPerComponent": 16, b"ColorSpace": Name(b"DeviceGray"), b"Filter": [Name(b"ASCIIHexDecode")]}))
+                img = docs.content_stream(bytes(range(w * h * 2)).hex().encode() + b">", extra={**common, **{b"BitsPerComponent": 16, b"ColorSpace": Name(b"DeviceGray"), b"Filter": [Name(b"ASCIIHexDecode")]}})
             xobjs[nm] = alloc(img)
             content.append(b"q 10 0 0 10 %d 100 cm " % (20 * i) + pdf_name(nm) + b" Do Q")
     res = {}
